@@ -59,6 +59,9 @@ def goal(w):
 
 
 def factory(sc):
+    if "ops" in sc:
+        kw = {"max_steps": 900, "horizon": 60.0, "deviations": tuple(sc.get("dev", ("drop",)))}
+        return netsim.resolve_tickets(dict(sc["cfg"])), sc["ops"], [CongestionMonitor()], kw, goal
     kw = {"max_steps": 700, "horizon": 60.0, "deviations": tuple(sc.get("dev", ("drop", "dup", "delay", "late")))}
     return netsim.resolve_tickets(dict(CFGS[sc["cfg"]])), SCRIPTS[sc["script"]], [CongestionMonitor()], kw, goal
 
@@ -104,6 +107,10 @@ def run_wire(ctx):
     if not quick:
         d2 = {k: v for k, v in small.items() if v["script"] in ("hs_only", "echo")}
         netcheck.explore_scenarios(ctx, "c08", d2, 2, "wire_d2", sig_extra=sig_extra)
+    from vlib import cfgpairs
+
+    netcheck.explore_scenarios(ctx, "c08", cfgpairs.scenarios(ctx.seed), 1, "wire_config_pairs_d1",
+                               sig_extra=lambda sig, sid, devs: dict(sig, cfg="pairs"))
     if len(agg["outcomes"]) < 3:
         raise core.HarnessError("vacuous wire exploration")
     ctx.assumptions += [
